@@ -446,7 +446,23 @@ fn conc_pairs(run: &Run, fam: Arc<Fam>, bound: usize) {
                             }
                             let mut steps = 0;
                             loop {
-                                let en = rig.d.enabled_steps();
+                                // Tasks of `replicate_valid_fresh_record` (and what they spawn) only read the store and
+                                // talk to neighbours: they cannot influence what is stored, so they run after everything
+                                // else has quiesced. This also keeps their reads out of the read/write log used below.
+                                let en_all = rig.d.enabled_steps();
+                                let is_observer = |id: usize| -> bool {
+                                    let mut cur = Some(id);
+                                    while let Some(c) = cur {
+                                        let info = rig.d.exec.info(c);
+                                        if info.func.ends_with("::replicate_valid_fresh_record") {
+                                            return true;
+                                        }
+                                        cur = info.parent;
+                                    }
+                                    false
+                                };
+                                let primary: Vec<Step> = en_all.iter().cloned().filter(|s| !matches!(s, Step::Poll(id) if is_observer(*id))).collect();
+                                let en = if primary.is_empty() { en_all } else { primary };
                                 if en.is_empty() {
                                     break;
                                 }
@@ -465,9 +481,22 @@ fn conc_pairs(run: &Run, fam: Arc<Fam>, bound: usize) {
                             let mut fails = vec![];
                             safety(&fam2, &held, &mut fails, "after both deliveries settled");
                             if held != want {
-                                let trig = match (&held, &want) {
-                                    (Held::Pad { counter: h, .. }, Held::Pad { counter: w, .. }) if h < w => "overlapping-updates-lower-counter-wins",
-                                    (Held::Set(h), Held::Set(w)) if h.is_subset(w) => "overlapping-updates-entry-lost",
+                                // The known race: the update that is written last read the local copy BEFORE the other
+                                // update's write was handled by the driver (a stale read). If instead it read the copy
+                                // after that write had been handled and still lost data, it is a different defect.
+                                let kx = crate::store_rig::hexkey(&fam2.key);
+                                let rw: Vec<&str> = rig.d.rw_log.iter().filter(|e| e.ends_with(&kx)).map(|e| &e[..1]).collect();
+                                let last_w = rw.iter().rposition(|e| *e == "W");
+                                let prev_w = last_w.and_then(|l| rw[..l].iter().rposition(|e| *e == "W"));
+                                let stale_read = match (prev_w, last_w) {
+                                    (Some(p), Some(l)) => !rw[p + 1..l].contains(&"R"),
+                                    _ => false,
+                                };
+                                let trig = match (&held, &want, stale_read) {
+                                    (Held::Pad { counter: h, .. }, Held::Pad { counter: w, .. }, true) if h < w => "overlapping-updates-lower-counter-wins",
+                                    (Held::Set(h), Held::Set(w), true) if h.is_subset(w) => "overlapping-updates-entry-lost",
+                                    (Held::Pad { counter: h, .. }, Held::Pad { counter: w, .. }, false) if h < w => "lower-counter-written-after-fresh-read",
+                                    (Held::Set(h), Held::Set(w), false) if h.is_subset(w) => "entry-lost-after-fresh-read",
                                     _ => "other",
                                 };
                                 fails.push(Fail::new("stored-equals-reference", trig, format!("both deliveries settled: node holds {held:?}, deliveries determine {want:?}")));
@@ -501,6 +530,7 @@ pub fn main(tier: Option<&str>) {
          stateless DFS over all interleavings of future polls / command handling / write and notification tasks with <=1(2) deviations from FIFO.",
     );
     run.assume("paid uploads use an always-paying contract stub (payment conditions are C03's subject)");
+    run.assume("concurrent part: the read-only replicate_valid_fresh_record tasks are scheduled after everything else has quiesced (they cannot change what is stored)");
     run.assume("concurrent part: deliveries via replication and unpaid update only (no contract I/O inside the explored schedules)");
     let fams = [Arc::new(scratchpad_family()), Arc::new(transaction_family()), Arc::new(register_family())];
     for fam in &fams {
